@@ -69,6 +69,34 @@ static void same_addresses(const Vec& v, const Snap& s, usize upto, int id)
     }
 }
 
+// discriminator of known finding KF-erase-overlap (DESIGN.md section 7): erase on a varying-size list of non-trivially
+// relocatable types where an element behind the erased ones is larger than the bytes that were erased
+template <class... P>
+constexpr bool all_trivial(L<P...>)
+{
+    return (std::is_trivially_copyable_v<typename PI<P>::V> && ...);
+}
+static bool erase_overlaps(const M& m, usize first, usize last)
+{
+    if (LT::NVARY == 0 || all_trivial(LT{}) || first == last)
+    {
+        return false;
+    }
+    usize erased = 0, worst = 0;
+    for (usize i = 0; i < KMAX; ++i)
+    {
+        if (i >= first && i < last)
+        {
+            erased += payload_bytes<LT>(m.e[i]);
+        }
+        else if (i >= last && i < m.n && payload_bytes<LT>(m.e[i]) > worst)
+        {
+            worst = payload_bytes<LT>(m.e[i]);
+        }
+    }
+    return worst > erased;
+}
+
 static bool has_room(const M& m, const MElem<LT::N>& e)
 {
     return m.n < m.cap && live_payload<LT>(m) + payload_bytes<LT>(e) <= m.budget;
@@ -118,6 +146,9 @@ static void step(Vec& v, M& m, int op, int base)
             usize pos = verif_nondet_size();
             verif_assume(pos < m.n);
             pos = verif_fork(pos);
+#ifdef KF_ERASE_OVERLAP
+            verif_assume(!erase_overlaps(m, pos, pos + 1));
+#endif
             const Snap s = snap(v, m);
             auto it = v.erase(v.begin() + pos);
             verif_assert(it == v.begin() + pos, base + 80);
@@ -132,6 +163,9 @@ static void step(Vec& v, M& m, int op, int base)
             verif_assume(first <= last && last <= m.n);
             first = verif_fork(first);
             last = verif_fork(last);
+#ifdef KF_ERASE_OVERLAP
+            verif_assume(!erase_overlaps(m, first, last));
+#endif
             const Snap s = snap(v, m);
             auto it = v.erase(v.begin() + first, v.begin() + last);
             verif_assert(it == v.begin() + first, base + 80);
@@ -221,9 +255,5 @@ extern "C" void h_entry()
         verif_reach(1);
     }
     verif_assert(verif_live_objs() == 0, 9100);
-#ifndef KNOWN_TABLE_LEAK
     verif_assert(verif_live_blocks() == 0, 9101);
-#else
-    verif_assert(verif_live_blocks_of(alignof(typename Vec::allocator_type::value_type)) == 0, 9101);
-#endif
 }
